@@ -304,6 +304,11 @@ def check_flow_conservation(G: nx.DiGraph, flow_attr) -> bool:
         True if the flow conservation property holds, False otherwise.
     """
 
+    # An edge without the flow attribute (also one joining a source to a sink,
+    # which the per-node loop below never looks at) cannot satisfy flow conservation
+    if any(data.get(flow_attr) is None for _, _, data in G.edges(data=True)):
+        return False
+
     for v in G.nodes():
         if G.out_degree(v) == 0 or G.in_degree(v) == 0:
             continue
